@@ -11,13 +11,18 @@ from framework import TranslateError  # noqa: F401
 
 PID = "C01"
 PROPS_FILE = "Props/C01.v"
-GEN_FILES: list[str] = []
+GEN_FILES = ["Gen/C01_columns.v"]
 MODEL_FILES = ["Model/C01_dataset.v", "Model/C01_agree.v"]
 ALLOWED_AXIOMS: list[str] = []
 CASE_HEADER = ("From Coq Require Import ZArith QArith.\nFrom LK Require Import Lib.QLib Model.C01_dataset Model.C01_agree.\n"
                "Open Scope Z_scope.")
 TRUSTED = [
     "Coq 8.16.1 kernel + vm_compute (no native_compute); Print Assumptions of every theorem in Props/C01.v: closed under the global context",
+    "Gen/C01_columns.v is regenerated on every run from schema.py (id_col_name, num_col_name), builder.py (the column-copy loop of "
+    "add_relationships) and relationships.py (RelationshipSet._link_cols, attribute_names, arrow) by harness/translate/c01.py: statement "
+    "shapes are compared after ast.unparse, the keep / skip conditions are translated (`col in <list>`, `not in`, not / and / or); anything "
+    "else fails closed.  views_carry_every_attribute is proved over the generated definitions; Arrow's append_column / select / pa.table "
+    "are read as list operations on column names",
     "hand-written model of DatasetBuilder (add_entities, add_relationships, filter_interactions, clear_relationships, build) and of "
     "MatrixRelationshipSet (sort, value_counts -> row sizes -> cumsum, every view) in Model/C01_dataset.v, tied by correspondence: the same "
     "operation list is run on the real builder, every view is dumped as raw arrays and compared inside Coq with the model's arrays "
@@ -32,19 +37,31 @@ TRUSTED = [
 ]
 ASSUMPTIONS = [
     "identifiers of one entity class have one type (all integers or all ASCII strings); interaction frames of one case draw their attribute columns from one "
-    "schema (a frame may lack some of them)",
+    "schema (a frame may lack some of them); the extra attribute column has a generated name that is none of user_num, item_num, user_id, item_id, "
+    "rating, timestamp, count, first_time, last_time (special meaning in lenskit) or rank (reserved by ItemList)",
     "ratings are multiples of 1/2, timestamps (whole seconds, in an int64 column or an Arrow timestamp[s|ms|us|ns] column) and the extra "
     "column are integers; any attribute value may be missing (Arrow null, NaN / NaT in a pandas frame); time bounds are multiples of 1/4 s",
 ]
 RULE = ("structured generator: 1-8 users x 1-8 items (integer or string identifiers in random order, with byte-order traps such as u10 < u2 "
-        "and upper before lower case), optional rating / timestamp / extra columns with missing values (none, 1/4 or 1/2 of the values) and "
+        "and upper before lower case), optional rating / timestamp / extra columns (the extra column's NAME is generated: names ending in _num / _id, "
+        "named like statistics or like the columns from_interactions_df looks for, other letter case, spaces, non-ASCII, empty) with missing values (none, 1/4 or 1/2 of the values) and "
         "batches that lack some of the columns, 1-4 interaction batches with the insert / filter / error "
         "policies, pre-declared and late entity additions, 0-3 filters (pairs, single column, time window whose bounds are whole or fractional "
         "seconds placed at / next to timestamps present in the data and given as int, float or date-time), rare clear, builder or "
-        "from_interactions_df driver; malformed stream: duplicate ids, forbidden re-inserts, unknown ids under 'error', repeated pairs, "
+        "from_interactions_df driver (input columns under the names it finds by itself or under other names passed as *_col); malformed stream: duplicate ids, forbidden re-inserts, unknown ids under 'error', repeated pairs, "
         "time filter without timestamps / before any batch carried the timestamp column; non-trivial = the dataset was built, at least two records survive, at least one user or item has no "
         "interaction, and the identifiers were not supplied in ascending order or arrived in more than one increment; distinct = by hash of the case")
 SHARD = 60
+
+
+def translate():
+    "Gen/C01_columns.v: the columns of the stored table and of its views as functions of the column names (fail closed)"
+    from translate import c01 as t
+    from translate.pyq import TranslateError as TE
+    try:
+        return t.translate(common.SRC)
+    except TE as e:
+        raise TranslateError(str(e))
 
 
 # ---------------------------------------------------------------------------------------------
@@ -52,7 +69,65 @@ SHARD = 60
 # ---------------------------------------------------------------------------------------------
 
 STR_POOL = ["u1", "u10", "u2", "u21", "B", "a", "Z9", "aa", "A", "b", "u", "07", "7", "10", "x_y", "X", "k9", "K9"]
-ATTRS = ["rating", "timestamp", "extra"]
+ATTRS = ["rating", "timestamp", "extra"]        # attribute *slots* of a case; the column of a slot is called cname(case, slot)
+
+# Names of the extra attribute column: the views must carry an attribute whatever it is called.  The pool resembles or collides with
+# lenskit's internal naming conventions: the `<entity>_num` / `<entity>_id` link columns, the statistics columns, the columns
+# from_interactions_df looks for, pandas index names, other letter case, spaces, non-ASCII, empty.
+# Not used: the relationship's own link / id columns (user_num, item_num, user_id, item_id: a real clash), `count`, `first_time`,
+# `last_time` (documented special meaning: NotImplementedError / folded into the statistics) and `rank` (reserved by ItemList).
+EXTRA_NAMES = {
+    "plain": ["extra", "weight", "x"],
+    "suffix_num": ["disc_num", "track_num", "num", "_num", "user_num_num", "item_id_num", "rating_num", "n_num"],
+    "suffix_id": ["session_id", "x_id", "id", "_id", "user_num_id", "item_id_id"],
+    "statistic": ["counts", "record_count", "user_count", "item_count", "rating_count", "mean_rating", "rating_mean", "timestamp_min",
+                  "item_num_count", "score"],
+    "role-like": ["user", "item", "USER", "itemId", "RATING", "TIMESTAMP", "Rating"],
+    "case": ["ITEM_NUM", "User_Id", "Count", "EXTRA"],
+    "odd": ["Play Count", "dur\u00e9e", "index", "level_0", "__index_level_0__", "0", "", " ", "a.b", "item num"],
+}
+RESERVED_NAMES = {"user_num", "item_num", "user_id", "item_id", "count", "first_time", "last_time", "rank", "rating", "timestamp"}
+# the column names from_interactions_df looks for when the caller names none (in its order of preference)
+AUTO_COLS = {"user": ["user_id", "user", "USER", "userId", "UserId"], "item": ["item_id", "item", "ITEM", "itemId", "ItemId"],
+             "rating": ["rating", "RATING"], "timestamp": ["timestamp", "TIMESTAMP"]}
+CUSTOM_COLS = {"user": ["uid", "member", "user_num"], "item": ["iid", "track", "item_num"], "rating": ["stars", "value", "Rating"],
+               "timestamp": ["ts", "time", "Timestamp"]}
+
+
+def cname(case, a):
+    "the column name of attribute slot `a` in the frames handed to lenskit and in every view (replays recorded before names were generated: the slot)"
+    return case.get("names", {}).get(a, a)
+
+
+def name_class(nm):
+    return next((k for k, v in EXTRA_NAMES.items() if nm in v), "other")
+
+
+def gen_extra_name(rng):
+    k = rng.weighted([("plain", 2), ("suffix_num", 4), ("suffix_id", 2), ("statistic", 2), ("role-like", 2), ("case", 1), ("odd", 2)])
+    return rng.choice(EXTRA_NAMES[k])
+
+
+def gen_incols(rng, schema, extra_name):
+    """the column names of the frame handed to from_interactions_df: one of the names it finds by itself, or any other name passed
+    as user_col= / item_col= / rating_col= / timestamp_col= (a name it would find is also passed explicitly now and then).  When the
+    extra attribute is called like a column from_interactions_df looks for, the frame uses the names of first preference."""
+    auto_all = {n.lower() for v in AUTO_COLS.values() for n in v}
+    clash = schema["extra"] and extra_name.lower() in auto_all
+    out = {}
+    for role in ("user", "item", "rating", "timestamp"):
+        if clash or rng.chance(1, 2):
+            out[role] = [AUTO_COLS[role][0], False]
+        elif rng.chance(1, 2):
+            out[role] = [rng.choice(AUTO_COLS[role]), rng.chance(1, 4)]
+        else:
+            out[role] = [rng.choice(CUSTOM_COLS[role]), True]
+    used = set()
+    for role in list(out):                       # no two columns of one frame share a name
+        if out[role][0] in used or (schema["extra"] and out[role][0] == extra_name):
+            out[role] = [AUTO_COLS[role][0], False]
+        used.add(out[role][0])
+    return out
 
 
 INT_DTYPES = {"int8": (-2 ** 7, 2 ** 7 - 1), "int16": (-2 ** 15, 2 ** 15 - 1), "int32": (-2 ** 31, 2 ** 31 - 1),
@@ -142,7 +217,8 @@ def gen_case(rng, malformed=False):
     dt_i, items, adv_i = gen_ids(rng, kind_i, ni)
     nu, ni = len(users), len(items)
     uids, iids = users + adv_u, items + adv_i
-    schema = {"rating": rng.chance(2, 3), "timestamp": rng.chance(1, 2), "extra": rng.chance(1, 4)}
+    schema = {"rating": rng.chance(2, 3), "timestamp": rng.chance(1, 2), "extra": rng.chance(2, 5)}
+    extra_name = gen_extra_name(rng)
     pnull = rng.weighted([(0, 3), (4, 2), (2, 1)])       # missing attribute values: none, about 1/4, about 1/2 of the values
     ragged = rng.chance(1, 3)                              # batches may lack some of the schema's columns
     seen_ts = []                                           # timestamps generated so far (time bounds are placed at / next to them)
@@ -150,6 +226,7 @@ def gen_case(rng, malformed=False):
             "ts_kind": rng.choice(["int", "datetime"]),      # Arrow type of the timestamp column: int64 or timestamp[unit]
             "ts_unit": rng.choice(["s", "s", "ms", "us", "ns"]), "pnull": pnull,
             "dt_u": dt_u, "dt_i": dt_i,                       # integer dtype of the declared entity lists (None: strings)
+            "names": {"extra": extra_name},                  # the column name of the extra attribute
             "allow_repeats": rng.chance(1, 5), "style": "malformed" if malformed else "valid"}
 
     def unknown_rows(k, cols=None):
@@ -171,9 +248,14 @@ def gen_case(rng, malformed=False):
         pairs = rng.sample([(u, i) for u in users for i in items], rng.randint(1, min(nu * ni, 14)))
         rows = [gen_row(rng, u, i, schema, pnull) for u, i in pairs]
         case["driver"] = "fidf"
+        if not schema["rating"] and extra_name == "RATING":           # from_interactions_df would take it for the rating column
+            case["names"]["extra"] = extra_name = "Rating"
+        if not schema["timestamp"] and extra_name == "TIMESTAMP":
+            case["names"]["extra"] = extra_name = "Timestamp"
         case["fidf"] = {"users": rng.shuffle(rng.subset(users, 3, 4)) if rng.chance(1, 2) else None,
                         "items": rng.shuffle(rng.subset(items, 3, 4)) if rng.chance(1, 2) else None, "rows": rows,
-                        "dtype_u": pick_dtype(rng, dt_u), "dtype_i": pick_dtype(rng, dt_i)}
+                        "dtype_u": pick_dtype(rng, dt_u), "dtype_i": pick_dtype(rng, dt_i),
+                        "incols": gen_incols(rng, schema, extra_name)}
         for k in ("users", "items"):
             if case["fidf"][k] is not None and not case["fidf"][k]:
                 case["fidf"][k] = None
@@ -422,7 +504,7 @@ def _frame(case, rows, style, dtype_u=None, dtype_i=None, names=None):
             unit = case.get("ts_unit", "s")
             cols["timestamp"] = pa.array([None if r[3] is None else r[3] * TS_SCALE[unit] for r in rows], type=pa.int64()).cast(pa.timestamp(unit))
     if "extra" in names:
-        cols["extra"] = pa.array([r[4] for r in rows], type=pa.int64())
+        cols[cname(case, "extra")] = pa.array([r[4] for r in rows], type=pa.int64())
     tbl = pa.table(cols)
     if style == "pandas" and rows:
         return tbl.to_pandas()
@@ -510,8 +592,8 @@ def _attr_vals(case, cols, getter, n):
     "rows of model-side attribute integers, read column by column from a table-like view"
     out = [[] for _ in range(n)]
     for a in ATTRS:
-        if a in cols:
-            vals = getter(a)
+        if cname(case, a) in cols:
+            vals = getter(cname(case, a))
             for k in range(n):
                 v = None if vals is None else vals[k]     # a field an ItemList does not have: every value is missing
                 if _isnull(v):
@@ -603,7 +685,15 @@ def run_impl(case):
     else:
         f = case["fidf"]
         df = _frame(case, f["rows"], "pandas", f.get("dtype_u"), f.get("dtype_i"))
+        if not isinstance(df, pd.DataFrame):
+            df = df.to_pandas()
         kw = {}
+        canon = {"user": "user_id", "item": "item_id", "rating": "rating", "timestamp": "timestamp"}
+        for role, (nm, explicit) in (f.get("incols") or {}).items():
+            if canon[role] in df.columns:
+                df = df.rename(columns={canon[role]: nm})
+                if explicit:
+                    kw[role + "_col"] = nm
         if f["users"] is not None:
             kw["users"] = _ids_array(case["kind_u"], f["users"], "numpy", case.get("dt_u"))
         if f["items"] is not None:
@@ -628,44 +718,56 @@ def run_impl(case):
     cols = obs["columns"] = list(t.column_names)
     if "timestamp" in cols:
         obs["ts_type"] = str(t.schema.field("timestamp").type)
-    fields = [a for a in ATTRS if a in cols]
+    fields = [a for a in ATTRS if cname(case, a) in cols]
+    VC = obs["view_columns"] = []                  # the column names of every table-like view
+
+    def _cols(label, names):
+        VC.append([label, [str(c) for c in names]])
+        return list(names)
 
     def _sec0():  # record tables
-        V.append(["table", "arrow", _tab(case, cols, lambda c: t.column(c).to_pylist(), "user_num", "item_num")])
+        _cols("attribute_names", ds.interactions().attribute_names)
+        V.append(["table", "arrow", _tab(case, _cols("table:arrow", cols), lambda c: t.column(c).to_pylist(), "user_num", "item_num")])
         p = ds.interaction_table(format="pandas")
-        V.append(["table", "pandas", _tab(case, list(p.columns), lambda c: p[c].tolist(), "user_num", "item_num")])
+        V.append(["table", "pandas", _tab(case, _cols("table:pandas", p.columns), lambda c: p[c].tolist(), "user_num", "item_num")])
         n = ds.interaction_table(format="numpy")
-        V.append(["table", "numpy", _tab(case, list(n.keys()), lambda c: _tolist(n[c]), "user_num", "item_num")])
+        V.append(["table", "numpy", _tab(case, _cols("table:numpy", n.keys()), lambda c: _tolist(n[c]), "user_num", "item_num")])
         p = ds.interaction_matrix(format="pandas")
-        V.append(["table", "matrix-pandas", _tab(case, list(p.columns), lambda c: p[c].tolist(), "user_num", "item_num")])
+        V.append(["table", "matrix-pandas", _tab(case, _cols("table:matrix-pandas", p.columns), lambda c: p[c].tolist(), "user_num", "item_num")])
         ident = lambda x: x  # noqa: E731
         p = ds.interaction_table(format="pandas", original_ids=True)
-        V.append(["table_ids", "pandas", _tab(case, list(p.columns), lambda c: p[c].tolist(), "user_id", "item_id", ident, ident)])
+        V.append(["table_ids", "pandas", _tab(case, _cols("table_ids:pandas", p.columns), lambda c: p[c].tolist(), "user_id", "item_id", ident, ident)])
         ta = ds.interaction_table(format="arrow", original_ids=True)
-        V.append(["table_ids", "arrow", _tab(case, list(ta.column_names), lambda c: ta.column(c).to_pylist(), "user_id", "item_id", ident, ident)])
+        V.append(["table_ids", "arrow", _tab(case, _cols("table_ids:arrow", ta.column_names), lambda c: ta.column(c).to_pylist(), "user_id", "item_id",
+                                             ident, ident)])
+        n = ds.interaction_table(format="numpy", original_ids=True)
+        V.append(["table_ids", "numpy", _tab(case, _cols("table_ids:numpy", n.keys()), lambda c: _tolist(n[c]), "user_id", "item_id", _py, _py)])
         p = ds.interaction_matrix(format="pandas", original_ids=True)
-        V.append(["table_ids", "matrix-pandas", _tab(case, list(p.columns), lambda c: p[c].tolist(), "user_id", "item_id", ident, ident)])
+        V.append(["table_ids", "matrix-pandas", _tab(case, _cols("table_ids:matrix-pandas", p.columns), lambda c: p[c].tolist(), "user_id", "item_id",
+                                                     ident, ident)])
         for fld in fields:
-            p = ds.interaction_matrix(format="pandas", field=fld)
-            if list(p.columns) != ["user_num", "item_num", fld]:
-                raise ValueError(f"matrix pandas field={fld}: columns {list(p.columns)}")
-            V.append(["coo", fld, "matrix-pandas-field", p["user_num"].tolist(), p["item_num"].tolist(), _vals(fld, p[fld].tolist()),
+            nm = cname(case, fld)
+            p = ds.interaction_matrix(format="pandas", field=nm)
+            if list(p.columns) != ["user_num", "item_num", nm]:
+                raise ValueError(f"matrix pandas field={nm!r}: columns {list(p.columns)}")
+            V.append(["coo", fld, "matrix-pandas-field", p["user_num"].tolist(), p["item_num"].tolist(), _vals(fld, p[nm].tolist()),
                       len(users), len(items)])
 
     def _sec1():  # CSR / COO
         for fld in [None] + fields:
+            nm = None if fld is None else cname(case, fld)
             for legacy in (False, True):
-                m = ds.interaction_matrix(format="scipy", field=fld, legacy=legacy)
+                m = ds.interaction_matrix(format="scipy", field=nm, legacy=legacy)
                 V.append(["csr", fld, "scipy" + ("-legacy" if legacy else ""), m.indptr.tolist(), m.indices.tolist(), _vals(fld, m.data.tolist()),
                           int(m.shape[0]), int(m.shape[1])])
                 V.append(["nnz", "scipy-csr", int(m.nnz)])
-                m = ds.interaction_matrix(format="scipy", field=fld, layout="coo", legacy=legacy)
+                m = ds.interaction_matrix(format="scipy", field=nm, layout="coo", legacy=legacy)
                 V.append(["coo", fld, "scipy" + ("-legacy" if legacy else ""), m.row.tolist(), m.col.tolist(), _vals(fld, m.data.tolist()),
                           int(m.shape[0]), int(m.shape[1])])
-            tt = ds.interaction_matrix(format="torch", field=fld)
+            tt = ds.interaction_matrix(format="torch", field=nm)
             V.append(["csr", fld, "torch", tt.crow_indices().tolist(), tt.col_indices().tolist(), _vals(fld, tt.values().tolist()),
                       int(tt.shape[0]), int(tt.shape[1])])
-            tt = ds.interaction_matrix(format="torch", field=fld, layout="coo")
+            tt = ds.interaction_matrix(format="torch", field=nm, layout="coo")
             ind = tt.indices()
             V.append(["coo", fld, "torch", ind[0].tolist(), ind[1].tolist(), _vals(fld, tt.values().tolist()), int(tt.shape[0]), int(tt.shape[1])])
             V.append(["nnz", "torch-coo", int(tt._nnz())])
@@ -686,7 +788,7 @@ def run_impl(case):
             nums = il.numbers().tolist()
             ids = [_py(x) for x in il.ids().tolist()]
             # an ItemList drops a field whose values are all missing (documented): such a field reads as missing values
-            names = [a for a in ATTRS if a in cols]
+            names = [cname(case, a) for a in fields]
             at = _attr_vals(case, names, lambda a: None if il.field(a) is None else _tolist(il.field(a)), len(nums))
             return [[i, k, a] for i, k, a in zip(ids, nums, at)]
 
@@ -741,7 +843,32 @@ def run_impl(case):
                     bad.append(True)
             obs.setdefault("terms_out_of_range_raise", []).append(bad)
 
-    for name, fn in (("record tables", _sec0), ("CSR / COO", _sec1), ("rows", _sec2), ("statistics", _sec3), ("vocabulary look-ups", _sec4)):
+    def _sec5():  # record tables / matrix frames restricted to one attribute (fields=[name], field=name), by numbers and by original ids
+        for fld in fields:
+            nm = cname(case, fld)
+            for fmt in ("arrow", "pandas", "matrix-pandas"):
+                for byid in (False, True):
+                    label = f"{fmt}:{'ids' if byid else 'numbers'}"
+                    try:
+                        if fmt == "matrix-pandas":
+                            if not byid:
+                                continue                  # dumped with the record tables
+                            tb = ds.interaction_matrix(format="pandas", field=nm, original_ids=True)
+                        else:
+                            tb = ds.interaction_table(format=fmt, fields=[nm] if (len(nm) + byid) % 2 else nm, original_ids=byid)
+                        if fmt == "arrow":
+                            names_, get = list(tb.column_names), (lambda c, tb=tb: tb.column(c).to_pylist())
+                        else:
+                            names_, get = list(tb.columns), (lambda c, tb=tb: tb[c].tolist())
+                        uc, ic = ("user_id", "item_id") if byid else ("user_num", "item_num")
+                        if names_ != [uc, ic, nm]:
+                            raise ValueError(f"columns {names_}")
+                        V.append(["table_field", fld, label, [_py(x) for x in get(uc)], [_py(x) for x in get(ic)], _vals(fld, get(nm))])
+                    except Exception as e:
+                        V.append(["table_field", fld, label, f"{type(e).__name__}: {e}"[:160]])
+
+    for name, fn in (("record tables", _sec0), ("CSR / COO", _sec1), ("rows", _sec2), ("statistics", _sec3), ("vocabulary look-ups", _sec4),
+                     ("field tables", _sec5)):
         try:
             fn()
         except Exception as e:
@@ -837,6 +964,14 @@ def c_views(case, obs, um, im):
         elif k == "terms":
             mp = um if v[1] == "user" else im
             out.append(f"OTerms {'User' if v[1] == 'user' else 'Item'} {clist(v[2], cz)} {clist([mp[x] for x in v[3]], cz)}")
+        elif k == "table_field":
+            # a record table restricted to one attribute is the COO view of that attribute in table order
+            if isinstance(v[3], str):
+                out.append("ONnz (-1)")                   # the view raised: no model value agrees
+            elif v[2].endswith(":ids"):
+                out.append(f"OCooIds {c_field(case, v[1])} {clist([um[x] for x in v[3]], cz)} {clist([im[x] for x in v[4]], cz)} {c_attrs(v[5])}")
+            else:
+                out.append(f"OCoo {c_field(case, v[1])} {clist(v[3], cz)} {clist(v[4], cz)} {c_attrs(v[5])} {cz(len(obs['users']))} {cz(len(obs['items']))}")
         else:
             raise KeyError(k)
     return "[" + ";\n  ".join(out) + "]"
@@ -1074,6 +1209,17 @@ def oracle(case, obs):
         k = attr_names(case).index(fld)
         return Counter((u, i, (a[k],)) for u, i, a in recs)
 
+    # every table-like view carries exactly the link (or id) columns and the attribute columns of the records, whatever they are called
+    carried = [cname(case, a) for a in names]
+    for label, got_cols in obs.get("view_columns", []):
+        link = ["user_id", "item_id"] if label.startswith("table_ids") else [] if label == "attribute_names" else ["user_num", "item_num"]
+        lost = [c for c in carried if c not in got_cols]
+        alien = [c for c in got_cols if c not in link + carried]
+        if lost or alien or len(got_cols) != len(set(got_cols)) or any(c not in got_cols for c in link):
+            bad(f"view-columns:{label}", f"the view {label} has the columns {got_cols}; the records carry the attribute columns {carried}"
+                + (f": attribute column(s) {lost} (name class {[name_class(c) for c in lost]}) are missing from the view" if lost else "")
+                + (f": unexpected column(s) {alien}" if alien else ""))
+
     for view in obs["views"]:
         kind = view[0]
         try:
@@ -1106,6 +1252,20 @@ def oracle(case, obs):
                 got = Counter((users[r], items[c], (x,)) for r, c, x in zip(rows, colinds, vals))
                 if (nr, nc) != (len(users), len(items)) or not len(rows) == len(colinds) == len(vals) or got != proj(fld):
                     bad(f"view:coo:{name}", f"COO view {name} (field {fld}) does not denote the surviving records")
+            elif kind == "table_field":
+                _, fld, label, *rest = view
+                nm = cname(case, fld)
+                if len(rest) == 1:
+                    bad(f"view-error:table-field:{label}", f"the table restricted to the attribute column {nm!r} (name class {name_class(nm)}; {label}) "
+                                                           f"raised {rest[0]}; the records carry the columns {carried}")
+                else:
+                    us_, is__, vals = rest
+                    if label.endswith(":numbers"):
+                        us_, is__ = [users[u] for u in us_], [items[i] for i in is__]
+                    got = Counter((u, i, (x,)) for u, i, x in zip(us_, is__, vals))
+                    if not len(us_) == len(is__) == len(vals) or got != proj(fld):
+                        bad(f"view:table-field:{label}", f"the table restricted to the attribute column {nm!r} ({label}) does not denote the "
+                                                         f"surviving records' values of that attribute")
             elif kind == "nnz":
                 if view[2] != len(recs):
                     bad(f"nnz:{view[1]}", f"number of stored entries reported by {view[1]} is {view[2]}, there are {len(recs)} records")
@@ -1213,6 +1373,15 @@ def counters(case, obs):
                 yield "rows-with-unknown-id:" + o["missing"]
     yield "build=" + str(obs["build"])
     yield "attrs=" + ",".join(attr_names(case))
+    if case["schema"]["extra"]:
+        yield "extra-attribute-name-class=" + name_class(cname(case, "extra"))
+        if obs["build"] == 0 and cname(case, "extra") in obs.get("columns", []):
+            yield "extra-attribute-carried-by-the-table:" + name_class(cname(case, "extra"))
+    if case["driver"] == "fidf":
+        for role, (nm, explicit) in (case["fidf"].get("incols") or {}).items():
+            if role in ("user", "item") or case["schema"][role]:
+                yield f"one-shot-input-column:{role}=" + ("canonical" if nm == AUTO_COLS[role][0] else "auto-detected variant" if nm in AUTO_COLS[role]
+                                                           else "custom") + (" (passed as *_col)" if explicit else "")
     if case["schema"]["timestamp"]:
         yield "timestamp-type=" + (case.get("ts_kind", "int") if case.get("ts_kind", "int") == "int" else "timestamp[" + case.get("ts_unit", "s") + "]")
     if obs.get("ts_type"):
